@@ -198,7 +198,7 @@ def ev_types(case, rec):
     rec.sample(case)
 
 
-SUBCHECKS = [Sub('inverse', gen, ev, chunk=2, floor=1000), Sub('types', gen_types, ev_types, chunk=1, floor=100)]
+SUBCHECKS = [Sub('inverse', gen, ev, chunk=2, floor=1000, envs=8), Sub('types', gen_types, ev_types, chunk=1, floor=100, envs=2)]
 
 
 def bounds(tier, seed):
